@@ -2,6 +2,7 @@ package sym
 
 import (
 	"crypto/sha256"
+	"go/format"
 	"fmt"
 	"go/token"
 	"go/types"
@@ -32,6 +33,28 @@ func registerIntrinsics(m *Machine) {
 			n = m.T.Bin(OpAdd, n, m.T.Ite(m.T.Eq(b, c), m.T.Const(64, 1), m.T.Const(64, 0)))
 		}
 		return n
+	}
+	in["internal/bytealg.Count"] = func(m *Machine, fr *frame, a []value) value {
+		c := a[1].(*Term)
+		n := m.T.Const(64, 0)
+		for _, b := range a[0].([]value) {
+			n = m.T.Bin(OpAdd, n, m.T.Ite(m.T.Eq(b.(*Term), c), m.T.Const(64, 1), m.T.Const(64, 0)))
+		}
+		return n
+	}
+	in["internal/bytealg.Equal"] = func(m *Machine, fr *frame, a []value) value {
+		x, y := a[0].([]value), a[1].([]value)
+		if len(x) != len(y) {
+			return m.T.False
+		}
+		res := m.T.True
+		for i := range x {
+			res = m.T.And(res, m.T.Eq(x[i].(*Term), y[i].(*Term)))
+		}
+		return res
+	}
+	in["internal/bytealg.Index"] = func(m *Machine, fr *frame, a []value) value {
+		return m.indexString(valuesToBytes(a[0].([]value)), valuesToBytes(a[1].([]value)))
 	}
 	in["internal/bytealg.IndexString"] = func(m *Machine, fr *frame, a []value) value {
 		hay, needle := m.strBytes(a[0].(Str)), m.strBytes(a[1].(Str))
@@ -304,6 +327,28 @@ func registerIntrinsics(m *Machine) {
 			out[i] = m.T.Var(fmt.Sprintf("sha!%x!%d", h[:6], i), 8)
 		}
 		return out
+	}
+
+	// ---- go/format.Source: run natively on concrete text (gofmt itself is not a subject) ----
+	in["go/format.Source"] = func(m *Machine, fr *frame, a []value) value {
+		src := a[0].([]value)
+		b := make([]byte, len(src))
+		for i, v := range src {
+			t := v.(*Term)
+			if !t.IsConst() {
+				panic(unsupported("go/format.Source on symbolic text"))
+			}
+			b[i] = byte(t.K)
+		}
+		out, err := format.Source(b)
+		if err != nil {
+			return tuple{[]value(nil), m.errorsNew(fr, err.Error())}
+		}
+		res := make([]value, len(out))
+		for i, c := range out {
+			res[i] = m.T.Const(8, uint64(c))
+		}
+		return tuple{res, iface{}}
 	}
 
 	// ---- environment stubs ----
